@@ -200,6 +200,78 @@ def nesting_case(rec, iname, e0, rules, stmts, wkind, depth, named, bound, where
         sys.modules.pop(G['name'], None)
 
 
+def derived_case(rec, wkind, depth, variant):
+    """The nest sits in a named base grammar and is used through a derived grammar that overrides the
+    rule referenced at the bottom (or adds an ignore rule): at every depth the inherited nest must
+    reach the derived grammar's definitions (helper functions included)."""
+    rng = rec.rng
+    kinds = []
+    for _ in range(depth):
+        k = wkind
+        if k == 'mix':
+            k = rng.choice(['seq', 'group', 'opt', 'zzalt', 'leftempty'])
+        kinds.append(k)
+    base_name, derived_name = diff.unique_name('vt_c17a'), diff.unique_name('vt_c17b')
+    if variant == 'override-ref':
+        inner = ('seq', [('ref', 'R'), ('opt', ('ref', 'R'))])
+        base_rules = [('rule', 'R', None, ('str', 'a'))]
+        derived = [('rule', 'R', None, ('alt', [('str', 'b'), ('super', 'R')]))]
+    elif variant == 'override-template':
+        inner = ('call', 'W', [('str', 'a')])
+        base_rules = [('rule', 'W', ['p'], ('seq', [('ref', 'p'), ('opt', ('str', '!'))]))]
+        derived = [('rule', 'W', ['p'], ('seq', [('str', 'b'), ('ref', 'p')]))]
+    else:       # the derived grammar adds an ignore rule: literals of the inherited nest skip it
+        inner = ('seq', [('str', 'a'), ('opt', ('str', 'b'))])
+        base_rules = []
+        derived = [('ignore', ('re', ' +', False))]
+    e = inner
+    for k in kinds:
+        e = wrap_once(k, e, rng)
+    GA = dict(name=base_name, extends=None, stmts=[('rule', 'start', None, ('ref', 'Deep')), ('rule', 'Deep', None, e)] + base_rules)
+    GB = dict(name=derived_name, extends=base_name, stmts=derived)
+    case = dict(kind='nesting-derived', wrapper=wkind, depth=depth, variant=variant, kinds=''.join(k[0] for k in kinds),
+                grammars_repr=repr([GA, GB]) if depth <= 30 else None)
+    descs = [gast.render_grammar(GA, gast.Style(parens='min')), gast.render_grammar(GB)]
+    mods = []
+    try:
+        for d in descs:
+            r = observe.compile_grammar(d)
+            rec.case()
+            if r[0] != 'ok':
+                rec.violation('nesting-derived:grammar-error:%s' % (r[1] if r[0] != 'timeout' else 'nonterm'), 'Grammar() of a deeply nested description',
+                              dict(case, desc=d[:300]), 'module', r)
+                return
+            mods.append(r[1])
+        try:
+            chain = refpeg.build_chain([GA, GB])
+        except refpeg.IllFormed:
+            rec.drop()
+            return
+        inputs = ['', 'a', 'b', 'aa', 'ab', 'ba', 'bb', 'a!', 'ba!', 'a b', ' a', 'a ', 'zz', 'zza']
+        for level, g in enumerate(mods):
+            for text in inputs:
+                try:
+                    # (an ignore rule added by a derived grammar: both documented readings are accepted, as in C13)
+                    exps = [refpeg.expected(chain[:level + 1], text, None, 0, True, budget=400000, late_ignore=late)[0]
+                            for late in (True, False)]
+                except (refpeg.IllFormed, refpeg.ModelBudget, RecursionError):
+                    rec.drop()
+                    continue
+                exp = exps[0]
+                o = observe.observe(g, text)
+                rec.case()
+                if depth >= 10:
+                    rec.nontrivial(('derived', variant, wkind, depth, level, text))
+                rec.count('derived_level%d_calls' % level)
+                if not any(observe.same_outcome(x, o.outcome) for x in exps):
+                    rec.violation('nesting-derived:level%d:%s->%s' % (level, observe.outcome_class(exp), observe.outcome_class(o.outcome)),
+                                  'reference model (extends chain) on the wrapped expression',
+                                  dict(case, level=level, text_repr=repr(text), desc=descs[0][:200] + '||' + descs[1]), exp, o.outcome)
+    finally:
+        sys.modules.pop(base_name, None)
+        sys.modules.pop(derived_name, None)
+
+
 # -- deep inputs ------------------------------------------------------------------
 
 DEEP = {
@@ -359,6 +431,13 @@ def run_shard(rec):
             idx += 1
             if rec.mine(idx) and not rec.out_of_time():
                 nesting_case(rec, 'bound-name', ('str', 'a'), {}, [], wkind, depth, False, bound=True)
+    # the nest inherited by a derived grammar
+    for variant in ('override-ref', 'override-template', 'adds-ignore'):
+        for wkind in ('seq', 'zzalt', 'opt', 'mix'):
+            for depth in ((5, 12, 16, 17, 18, 19, 20, 22, 30, 40, 60) if quick else list(range(1, 64)) + [80, 99]):
+                idx += 1
+                if rec.mine(idx) and not rec.out_of_time():
+                    derived_case(rec, wkind, depth, variant)
     names = sorted(DEEP)
     n = 10000 if quick else 100000
     for i, name in enumerate(names):
@@ -368,6 +447,8 @@ def run_shard(rec):
 
 def replay(rec, rep):
     case = rep['case']
+    if case.get('kind') == 'nesting-derived':
+        return derived_case(rec, case['wrapper'], case['depth'], case['variant'])
     if case.get('kind') == 'deep':
         return deep_case(rec, case['grammar'], case.get('nesting', 10000) * (1 if case.get('nesting') else 1))
     for iname, e0, rules, stmts in inners():
